@@ -524,7 +524,7 @@ def run(ctx, only_cases=None):
         m = c["mode"]
         dist["adapter_wrapped_end"] += bool(c.get("wrap0") or c.get("wrap1"))
         dist["one_sided_traffic_both_ends_open"] += m == "free" and bool(c.get("deliver_ms")) and (not c.get("r0") or not c.get("r1"))
-        dist["end_fails_non_eof"] += (m == "relay" and c.get("fail_e") == 3) or (m == "free" and any(r["e"] == 3 for r in c.get("r0", []) + c.get("r1", [])))
+        dist["end_fails_non_eof"] += (m == "relay" and c.get("fail_e", 0) >= 3) or (m in ("free", "bridge", "copy") and any(r["e"] >= 3 for r in c.get("r0", []) + c.get("r1", [])))
         dist["permanent_timeout_failure"] += (m == "relay" and c.get("fail_e") == 4) or any(r["e"] == 4 for r in c.get("r0", []) + c.get("r1", []))
         dist["close_races_reattach"] += m == "reattach" and any(op["op"] == "closerace" for op in c.get("hist", []))
         if m == "relay":
